@@ -108,6 +108,10 @@ func validateEcdsaPrivateKey(key *ecdsa.PrivateKey) error {
 	if err := validateEcdsaPublicKey(&key.PublicKey); err != nil {
 		return err
 	}
+	// the private scalar must be in the range [1, n-1].
+	if key.D == nil || key.D.Sign() <= 0 || key.D.Cmp(key.Curve.Params().N) >= 0 {
+		return errors.New("jwk: invalid ecdsa key pair")
+	}
 	xx, yy := key.ScalarBaseMult(key.D.Bytes())
 	if xx.Cmp(key.X) != 0 || yy.Cmp(key.Y) != 0 {
 		return errors.New("jwk: invalid ecdsa key pair")
